@@ -447,6 +447,17 @@ func RunScenario(id uint64, seed uint64, big bool, budget int) *CaseResult {
 			for _, sp := range Specs(r, len(want), cnt, &toggle) {
 				res.Records = append(res.Records, Exec(it, sp))
 			}
+			// results larger than the default page size: the page sizes around it, "everything" and the default
+			// page, by key and by offset
+			if len(want) > 100 {
+				for _, k := range []uint64{100, 101, uint64(len(want)), uint64(len(want)) + 1} {
+					res.Records = append(res.Records, Exec(it, PageSpec{Kind: "walk-key", Limit: k, Count: r.Bool()}))
+					res.Records = append(res.Records, Exec(it, PageSpec{Kind: "walk-offset", Limit: k, Count: r.Bool()}))
+				}
+				res.Records = append(res.Records, Exec(it, PageSpec{Kind: "one", Limit: 0, Count: true}))
+				res.Records = append(res.Records, Exec(it, PageSpec{Kind: "one", Limit: 1000, Count: r.Bool()}))
+				res.Records = append(res.Records, Exec(it, PageSpec{Kind: "nil"}))
+			}
 		}
 	}
 	// the separate stream: offsets past the end (known ORM panic); recorded, never a violation
